@@ -143,9 +143,12 @@ impl Prop for DtOffset {
             let x = v.as_offset(o);
             // second step: replace the offset of a value that already carries one
             let w2 = w.set_offset(Offset::Fixed(c.off2));
-            (observe(&v), observe(&w), v == w, v.cmp(&w), w.cmp(&v), zeros, w.duration_between(&v).as_nanos(), observe(&x), rd_dt(&x), rd_dt(&w), observe(&w2), rd_dt(&w2))
+            // as_offset on the offset-carrying value (same offset / the second offset)
+            let y1 = w.as_offset(o);
+            let y2 = w.as_offset(Offset::Fixed(c.off2));
+            (observe(&v), observe(&w), v == w, v.cmp(&w), w.cmp(&v), zeros, w.duration_between(&v).as_nanos(), observe(&x), rd_dt(&x), rd_dt(&w), observe(&w2), rd_dt(&w2), (rd_dt(&y1), y1.get_offset(), rd_dt(&y2), y2.get_offset()))
         });
-        let (ov, ow, eq, c1, c2, zeros, dur, ox, ix, iw, ow2, iw2) = match r {
+        let (ov, ow, eq, c1, c2, zeros, dur, ox, ix, iw, ow2, iw2, ys) = match r {
             Ok(v) => v,
             Err(p) => return fail("c10.dt_panic", format!("set_offset/as_offset({}) on {} return", c.off, fmt_instant(i)), p.short()),
         };
@@ -180,6 +183,14 @@ impl Prop for DtOffset {
         ensure_eq!("c10.second_set_offset_date_getters", format!("date getters of {}", what2), wd2, ow2.1);
         ensure_eq!("c10.second_set_offset_time_getters", format!("time getters of {}", what2), wt2, ow2.2);
         ensure_eq!("c10.second_set_offset_format", format!("format of {}", what2), ws2, ow2.4);
+        // as_offset on a value that already carries an offset: which fields it "keeps" is not
+        // specified there, but the instant moves by minus the given offset and the offset is set
+        ensure_eq!(
+            "c10.as_offset_on_offset_value",
+            format!("(instant, offset) after set_offset({}) then as_offset({}) / as_offset({}) on {}", c.off, c.off, c.off2, fmt_instant(i)),
+            (i - c.off as i128 * tl::NS, o, i - c.off2 as i128 * tl::NS, Offset::Fixed(c.off2)),
+            ys
+        );
         Verdict::Pass
     }
 }
